@@ -60,16 +60,16 @@ TOs ==
                              [] OpOf(Ev) = "Unmap" -> [prot EXCEPT ![b] = "unmapped"]
          /\ todo' = Tail(q)
          /\ fault' = sk[2]
-  /\ UNCHANGED <<secure, light, alive, inited>>
+  /\ UNCHANGED <<secure, light, alive, inited, refused>>
 
 TRet == /\ Is("ret")
         /\ LET sk == Skip(todo, fault) IN sk[1] = <<>> /\ todo' = <<>> /\ fault' = sk[2]
-        /\ UNCHANGED <<prot, secure, light, alive, inited, amap>>
+        /\ UNCHANGED <<prot, secure, light, alive, inited, refused, amap>>
 
 TReset == /\ Is("Reset") /\ todo = <<>>
           /\ prot' = [b \in Bufs |-> "unmapped"] /\ secure' = [v \in Vms |-> FALSE] /\ light' = [v \in Vms |-> FALSE]
           /\ alive' = [b \in Bufs |-> FALSE] /\ inited' = [c \in Caches |-> FALSE] /\ todo' = <<>> /\ fault' = FALSE
-          /\ amap' = <<>>
+          /\ refused' = [b \in Bufs |-> FALSE] /\ amap' = <<>>
 
 TraceInit == Init /\ l = 1 /\ amap = <<>>
 TraceNext == TCall \/ TOs \/ TRet \/ TReset
